@@ -34,6 +34,8 @@ cfg = configuration_data({'X': get_option('x')})
 configure_file(output: 'conf.h', configuration: cfg)
 py = find_program('python3')
 custom_target('ct', output: 'ct.txt', command: [py, '-c', 'print(1)'], capture: true, build_by_default: true)
+custom_target('ctenv', output: 'ctenv.txt', command: [py, '-c', 'import os; print(os.environ["KP"] + get_option_x)'.replace('get_option_x', '""')],
+              env: {'KP': get_option('x')}, capture: true, build_by_default: true)
 install_data('data.txt', install_dir: get_option('datadir'))
 subproject('sub')
 """,
@@ -85,13 +87,16 @@ def cases(tier: str) -> T.List[Case]:
              v1, _vals(x='v2', n=8, sub__s='s1', buildtype='release', warning_level='1'), ['setup', '--reconfigure', '@B', '@S']),
         Case('wipe', 'wipe', [setup1], ['setup', '--wipe', '@B', '@S'], v1, v1, ['setup', '--reconfigure', '@B', '@S']),
     ]
+    setup_nf = ['setup', '@B', '@S', '--native-file', '@S/nf.ini', '-Dn=5']
+    vnf = _vals(x='nfx', n=5, warning_level='3')
+    if tier == 'quick':
+        # the machine-file variant subsumes the plain one (it also records -Dn=5)
+        cs[-1] = Case('wipe-nativefile', 'wipe', [setup_nf], ['setup', '--wipe', '@B', '@S'], vnf, vnf, ['setup', '--reconfigure', '@B', '@S'])
     if tier == 'thorough':
         cs.append(Case('wipe-after-configure', 'wipe', [setup1, ['configure', '@B', '-Dx=v3', '-Dn=9']],
                        ['setup', '--wipe', '@B', '@S'],
                        _vals(x='v3', n=9, sub__s='s1', buildtype='release'), _vals(x='v3', n=9, sub__s='s1', buildtype='release'),
                        ['setup', '--reconfigure', '@B', '@S']))
-        setup_nf = ['setup', '@B', '@S', '--native-file', '@S/nf.ini', '-Dn=5']
-        vnf = _vals(x='nfx', n=5, warning_level='3')
         cs += [
             Case('reconfigure-nativefile', 'reconfigure', [setup_nf],
                  ['setup', '--reconfigure', '@B', '@S', '-Dn=6'], vnf, _vals(x='nfx', n=6, warning_level='3'),
@@ -210,6 +215,20 @@ def assess_with(ar: Arena, followup: T.List[str]) -> T.Optional[T.Dict[str, T.An
             return {'symptom': 'unusable-empty-build-ninja'}
     except mn.ManifestError as e:
         return {'symptom': 'unusable-build-ninja-corrupt', 'detail': str(e)}
+    # every pickled state file the build / test / install steps load must be readable again (meson_exe_*.dat wrappers,
+    # install.dat, test setup data ...): checked by unpickling them with the repository's code in a forked child
+    bad = unreadable_dat_files(ar.b)
+    if bad:
+        return {'symptom': 'unusable-state-file-unreadable-after-followup', 'files': bad}
+    if os.environ.get('VERIF_TIER') == 'thorough' and (hash(ar.b) + len(fu.out)) % 10 == 0:
+        try:
+            import io
+            buf = io.StringIO()
+            rc = mn.Executor(m, ar.b, jobs=2, incremental=False, out=buf, env=runner.base_env()).run([])
+            if rc != 0:
+                return {'symptom': 'unusable-build-fails-after-followup', 'tail': buf.getvalue()[-600:]}
+        except mn.BuildFailure as e:
+            return {'symptom': 'unusable-build-fails-after-followup', 'tail': str(e)}
     for f in ('intro-buildoptions.json', 'meson-info.json'):
         try:
             with open(os.path.join(ar.b, 'meson-info', f), encoding='utf-8') as fh:
@@ -223,6 +242,42 @@ def assess_with(ar: Arena, followup: T.List[str]) -> T.Optional[T.Dict[str, T.An
     if r2.rc != 0 or r2.traceback:
         return {'symptom': 'configure-print-failed-after-followup', 'tail': (r2.out + r2.err)[-500:]}
     return None
+
+
+def unreadable_dat_files(bdir: str) -> T.List[str]:
+    common.use_repo()
+    r, w = os.pipe()
+    pid = os.fork()
+    if pid == 0:
+        os.close(r)
+        bad = []
+        try:
+            import pickle
+            import glob
+            for p in sorted(glob.glob(os.path.join(bdir, 'meson-private', '*.dat'))):
+                try:
+                    with open(p, 'rb') as f:
+                        pickle.load(f)
+                except BaseException as e:
+                    bad.append(f'{os.path.basename(p)}: {type(e).__name__}')
+        finally:
+            try:
+                os.write(w, json.dumps(bad).encode())
+            finally:
+                os._exit(0)
+    os.close(w)
+    data = b''
+    while True:
+        chunk = os.read(r, 65536)
+        if not chunk:
+            break
+        data += chunk
+    os.close(r)
+    os.waitpid(pid, 0)
+    try:
+        return json.loads(data.decode())
+    except ValueError:
+        return ['<probe failed>']
 
 
 def file_class(path: str) -> str:
